@@ -213,6 +213,10 @@ pub fn fault_families() -> Vec<(u32, GenParams)> {
                 mix: Mix { sload: 12, sstore: 12, balance: 8, extcode: 3, call: 5, slots: 3, len: (3, 9), ..Mix::default() },
                 kind_w: [12, 2, 0, 2],
                 nonce_check_off_pct: 20,
+                // transactions that in-order validation rejects on their nonce: workers run their
+                // bodies anyway (nonce check off), touching keys no in-order execution reads
+                invalid_pct: 12,
+                invalid_nonce_bias: true,
                 ..GenParams::default()
             },
         ),
